@@ -4,6 +4,9 @@ import GdcVerif.Lemmas.JpegLsNear
 import GdcVerif.Model.Golomb
 import GdcVerif.Lemmas.Golomb
 import GdcVerif.Lemmas.GolombCode
+import GdcVerif.Lemmas.GolombExact
+import GdcVerif.Lemmas.JpegFrames
+import GdcVerif.Lemmas.JpegLsScanStep
 import GdcVerif.Lemmas.JpegLsRunInt
 import GdcVerif.Lemmas.JpegLsCtx
 import GdcVerif.Lemmas.JpegLsRunCtx
@@ -213,6 +216,55 @@ theorem run_context_initial (rit range : Int) (hrit : rit = 0 ∨ rit = 1) (hr :
     JpegLsRun.RunCtxInv (NewRunModeContext rit range) 64 := JpegLsRun.newRunModeContext_inv rit range hrit hr
 
 example : JpegLsRun.getGolombCode (NewRunModeContext 1 256) = 2 := by decide
+
+/-- well-formed `WriteBits` calls: a uint32 value and a count in 0..32 (every call site of the scans) -/
+def WritesOk (ws : List (Nat × Int)) : Prop := ∀ p ∈ ws, p.1 < Golomb.M32 ∧ 0 ≤ p.2 ∧ p.2 ≤ 32
+
+/-- (8b) end of scan: for every sequence of well-formed `WriteBits` calls, `Flush()` leaves
+    `isFFWritten = false`, i.e. the scan never ends on 0xFF (no `FF FF D9` with the EOI marker);
+    and if at least one bit was written the scan is not empty.  (Bookkeeping invariant of
+    `Lemmas/GolombExact.lean`: the `freeBitCount` low bits of the buffer are zero, `isFFWritten` ⇔
+    last byte = 0xFF, `0 ≤ freeBitCount ≤ 32` between calls.) -/
+theorem golomb_scan_end (ws : List (Nat × Int)) (hv : WritesOk ws) :
+    (Golomb.finish (Golomb.writeAll Golomb.Writer.new ws)).out.getLast? ≠ some 255 ∧
+    ((∃ p ∈ ws, 1 ≤ p.2) → (Golomb.finish (Golomb.writeAll Golomb.Writer.new ws)).out ≠ []) :=
+  ⟨Golomb.finish_last_ne _ (Golomb.K_writeAll ws _ Golomb.K_new hv),
+   fun h => Golomb.finish_out_ne _ (Golomb.M_writeAll ws _ Golomb.K_new hv (Or.inr h))⟩
+
+example : WritesOk [(255, 8)] ∧ (Golomb.finish (Golomb.writeAll Golomb.Writer.new [(255, 8)])).out = [255, 0] := by
+  refine ⟨?_, by decide⟩
+  intro p hp; simp at hp; subst hp; decide
+
+theorem stuffed_pairStuffed : ∀ (l : List Nat), Golomb.Stuffed l → JpegC.PairStuffed l
+  | [], _ => trivial
+  | [_], _ => trivial
+  | a :: b :: rest, h => ⟨h.1, stuffed_pairStuffed (b :: rest) h.2⟩
+
+/-- (8c) instantiation of C16's bridge (`JpegC.noMarkerLS_of_pairStuffed`): the bytes the
+    `GolombWriter` model emits for ANY well-formed write sequence followed by `Flush()` satisfy the
+    strict-parser scan predicate `StrictJpeg.NoMarkerLS` (every 0xFF is followed by a byte < 0x80, the
+    scan does not end on 0xFF) — so the JPEG-LS container theorem of C16 has no open scan hypothesis
+    beyond "the scan bytes come out of the GolombWriter" (correspondence `jls-gw`, `jls-emv`,
+    `jls-runseg-enc`) -/
+theorem jpegls_scan_nomarker (ws : List (Nat × Int)) (hv : WritesOk ws) :
+    StrictJpeg.NoMarkerLS (Golomb.finish (Golomb.writeAll Golomb.Writer.new ws)).out = true := by
+  have hI := Golomb.inv_finish _ (Golomb.inv_writeAll ws _ Golomb.inv_new (fun p hp => (hv p hp).1))
+  exact JpegC.noMarkerLS_of_pairStuffed _ (stuffed_pairStuffed _ hI.2.1) hI.2.2.2 (golomb_scan_end ws hv).1
+
+/-- (11c) regular-mode sample of the scan model (`Model/JpegLsScan.lean`, tied to the four real
+    line walks by `jls-scan-enc` / `jls-scan-dec`): for every admissible (P, NEAR), every context
+    table, context id, neighbourhood and source sample in range, the decoder step on the bits the
+    encoder step wrote yields the same reconstruction, the same updated context table and leaves the
+    following bits — the per-step agreement lock-step needs for regular mode -/
+theorem regular_sample_roundtrip (P : Nat) (N : Int) (h : JpegLsNear.Admissible P N) (cs : Array Context)
+    (qs a b c xs : Int) (rest : List Bool) (hxs : 0 ≤ xs ∧ xs ≤ (2 : Int) ^ P - 1)
+    (ws : List (Nat × Int)) (cs' : Array Context) (rec : Int)
+    (henc : JpegLsScan.encRegular (JpegLsNear.traits P N) cs qs a b c xs = .ok (ws, cs', rec)) :
+    JpegLsScan.decRegular (JpegLsNear.traits P N) cs qs a b c (Golomb.writesBits ws ++ rest) = .ok (cs', rec, rest) :=
+  JpegLsScan.regular_roundtrip P N h cs qs a b c xs rest hxs ws cs' rec henc
+
+example : (JpegLsScan.encRegular (JpegLsNear.traits 8 0) #[NewContext 256, NewContext 256] 1 10 20 10 200).toOption.map
+    (fun r => (r.1, r.2.2)) = some ([(1, 24), (150, 8)], 200) := by decide
 
 /-- (12) what an unreduced error of the finding does to the escape code: mapped value 8190 at
     qbpp = 12 is written as (8190−1) mod 4096 and read back as 4094 — model-level replay of the
